@@ -377,6 +377,7 @@ func Run(prop, tier string, seed int64, repoDir, verifDir string, verbose bool) 
 	nViol := 0
 	var lines []string
 	ob, dis, triv, queries := 0, 0, 0, 0
+	hunted := 0
 	solverMs, execMs := 0.0, 0.0
 	funcs := map[string]int{}
 	stubs := map[string]int{}
@@ -471,6 +472,11 @@ func Run(prop, tier string, seed int64, repoDir, verifDir string, verbose bool) 
 					exit = max(exit, 2)
 				}
 			default:
+				if r.Inst.Opt.Hunt {
+					hunted++
+					ob-- // not an obligation of the claim
+					break
+				}
 				lines = append(lines, fmt.Sprintf("INCONCLUSIVE %s %q: %s %s", r.Inst.Name(), o.Label, o.Verdict, o.Detail))
 				exit = max(exit, 2)
 			}
@@ -548,6 +554,7 @@ func Run(prop, tier string, seed int64, repoDir, verifDir string, verbose bool) 
 		"native_globals_dump_s":     w.DumpTime.Seconds(),
 		"exhaustive":                false,
 		"tier_requested":            tier,
+		"counterexample_search_only_obligations_without_answer": hunted,
 	}
 	if spec.Extra != nil {
 		if err := spec.Extra(w, ev); err != nil {
@@ -576,6 +583,9 @@ func Run(prop, tier string, seed int64, repoDir, verifDir string, verbose bool) 
 	for _, l := range lines {
 		fmt.Println(l)
 	}
+	if hunted > 0 {
+		fmt.Printf("NOTE %d counterexample-search obligations beyond the claimed bound ended without an answer (no counterexample found within their time budget; those bounds are not claimed)\n", hunted)
+	}
 	fmt.Printf("%s %s: %d obligations, %d discharged (%d by simplifier), %d violations, %d instances, %.1fs wall (exec %.1fs, solver %.1fs)\n",
 		prop, tier, ob, dis, triv, nViol, len(insts), ev.WallS, execMs/1000, solverMs/1000)
 	os.MkdirAll(filepath.Join(verifDir, "evidence"), 0o755)
@@ -583,6 +593,9 @@ func Run(prop, tier string, seed int64, repoDir, verifDir string, verbose bool) 
 	if err := os.WriteFile(filepath.Join(verifDir, "evidence", prop+".json"), data, 0o644); err != nil {
 		fmt.Println("cannot write evidence:", err)
 		return 2
+	}
+	if nViol > 0 {
+		return 1 // a replayed violation is reported as such whatever else was inconclusive
 	}
 	if exit == 0 && ob == 0 {
 		fmt.Println("BROKEN: no obligations were produced")
